@@ -64,7 +64,7 @@ NESTED = {
 
 OPS = ['construct', 'parse', 'deepcopy', 'new_version', 'revoke', 'marking', 'bundle', 'factory', 'store_add', 'store_read',
        'save_load', 'setattr', 'register', 'serialize', 'remove_custom', 'dedup', 'env', 'bad_construct', 'filters', 'marking_utils',
-       'composite']
+       'composite', 'ext_objects']
 
 
 class C13(Profile):
@@ -75,7 +75,8 @@ class C13(Profile):
     wall_cap = {'quick': 1200, 'thorough': 6 * 3600}
     probes = ['arg_nested_extension_dict', 'arg_observed_data_objects', 'failing_call_checked', 'fault_interrupted_call_checked',
               'object_shared_by_bundle_and_store', 'deepcopy_disjoint', 'assignment_refused', 'stored_dict_by_reference',
-              'factory_list_default', 'registration_args_checked', 'marking_on_pooled_dict', 'new_version_of_stored_object']
+              'factory_list_default', 'registration_args_checked', 'marking_on_pooled_dict', 'new_version_of_stored_object',
+              'extensions_dict_of_objects']
     rule = ('plans: 15-50 public calls drawn swarm-style from 18 op kinds over a shared pool of caller-owned dicts/lists and library objects '
             '(objects are re-used across bundles, stores, versioning and marking calls); ~25% of calls are made to fail (invalid values) and '
             'every 5th run injects I/O faults/crashes into store calls; after every call the deep fingerprint of every argument and of every '
@@ -529,6 +530,59 @@ class C13(Profile):
             o2 = self.monitored('construct_custom', lambda **kw: out.value(**kw), name='n', sizes=sizes)
             if o2.ok:
                 self.keep(o2.value)
+
+    def op_ext_objects(self, op):
+        """One caller-held `extensions` dictionary - empty, or holding ready-made extension OBJECTS, or plain dicts - given to
+        several constructors in a row, the last of a type registered with extension_name= (which adds its own extension to
+        what it was given).  The dictionary and the objects built from it earlier must stay as they were."""
+        s = self.s
+        from stix2.properties import IntegerProperty, StringProperty
+        if not getattr(self, '_ext_types', None):
+            pe_id = 'extension-definition--' + C.mkuuid(21, 'c13ext')
+
+            @s.v21.CustomExtension(pe_id, [('rank', IntegerProperty(required=True))])
+            class RankExt(object):
+                extension_type = 'property-extension'
+
+            @s.v21.CustomObject('x-sim-c13-extobj', [('name', StringProperty(required=True))],
+                                extension_name='extension-definition--' + C.mkuuid(22, 'c13ext'))
+            class ExtObj(object):
+                pass
+
+            @s.v21.CustomObservable('x-sim-c13-extsco', [('name', StringProperty(required=True))], ['name'],
+                                    extension_name='extension-definition--' + C.mkuuid(23, 'c13ext'))
+            class ExtSco(object):
+                pass
+            self._ext_types = (pe_id, RankExt, ExtObj, ExtSco)
+        pe_id, RankExt, ExtObj, ExtSco = self._ext_types
+        shape = op['a'] % 4
+        if shape == 0:
+            exts = {}
+        elif shape == 1:
+            exts = {pe_id: RankExt(rank=op['n'] % 7)}
+        elif shape == 2:
+            exts = {pe_id: {'extension_type': 'property-extension', 'rank': op['n'] % 7}}
+        else:
+            exts = {pe_id: RankExt(rank=1), 'extension-definition--' + C.mkuuid(24, 'c13ext'): {'extension_type': 'property-extension', 'tags': ['a', ['b']]}}
+        self.keep(exts)
+        self.world.probe('extensions_dict_of_objects' if shape in (1, 3) else 'extensions_dict_other')
+        order = [('identity', lambda **kw: s.v21.Identity(name='n', identity_class='individual', **kw)),
+                 ('file', lambda **kw: s.v21.File(name='f', **kw)),
+                 ('ext_object', lambda **kw: ExtObj(name='o', **kw)),
+                 ('ext_observable', lambda **kw: ExtSco(name='c', **kw))]
+        if op['b'] % 3 == 0:
+            order.reverse()
+        for name, ctor in order:
+            if (op['c'] >> len(name)) % 4 == 0 and name in ('identity', 'file'):
+                continue
+            out = self.monitored('construct_with_extensions/' + name, ctor, extensions=exts, allow_custom=True)
+            if out.ok:
+                self.keep(out.value)
+                if op['flag']:
+                    self.world.clock.set(1700000000000000 + op['n'] * 1000)
+                    nv = self.monitored('new_version', s.versioning.new_version, out.value, name='n2') if name != 'file' and 'modified' in out.value else None
+                    if nv is not None and nv.ok:
+                        self.keep(nv.value)
 
     def op_serialize(self, op):
         v = self.pick(op['a'], self.is_obj)
